@@ -40,6 +40,7 @@ TypeCanonicalizer::TypeCanonicalizer(SemanticModel* semaModel, const SyntaxTree*
     : SyntaxVisitor(tree)
     , semaModel_(semaModel)
     , tySpecNode_(nullptr)
+    , decltorNode_(nullptr)
     , diagReporter_(this)
 {
     const char* internals[] = { "__builtin_va_list" };
@@ -122,8 +123,19 @@ SyntaxVisitor::Action TypeCanonicalizer::visitTypedefName(const TypedefNameSynta
     return Action::Skip;
 }
 
+SyntaxToken TypeCanonicalizer::diagnosticToken() const
+{
+    // The specifier of a type that is reached through a function type's
+    // parameters may not have been visited.
+    if (tySpecNode_)
+        return tySpecNode_->lastToken();
+    PSY_ASSERT_2(decltorNode_, return SyntaxToken::invalid());
+    return decltorNode_->lastToken();
+}
+
 SyntaxVisitor::Action TypeCanonicalizer::visitDeclarator_COMMON(const DeclaratorSyntax* node)
 {
+    decltorNode_ = node;
     auto decl = semaModel_->declarationBy(node);
     PSY_ASSERT_2(decl, return Action::Quit);
     switch (decl->category()) {
@@ -271,12 +283,12 @@ const Type* TypeCanonicalizer::canonicalize(const Type* ty, const Scope* scope)
                     return tydef->introducedSynonymType();
                 }
                 //if (tree_->completeness() == TextCompleteness::Full)
-                diagReporter_.ExpectedTypedefDeclaration(tySpecNode_->lastToken());
+                diagReporter_.ExpectedTypedefDeclaration(diagnosticToken());
             }
             else {
                 //if (tree_->completeness() == TextCompleteness::Full)
                 if (!internalTydefNameIdents_.count(tydefName))
-                    diagReporter_.TypeDeclarationNotFound(tySpecNode_->lastToken());
+                    diagReporter_.TypeDeclarationNotFound(diagnosticToken());
             }
             return semaModel_->compilation()->canonicalErrorType();
         }
@@ -302,11 +314,11 @@ const Type* TypeCanonicalizer::canonicalize(const Type* ty, const Scope* scope)
                     return canonicalize(tagDecl->introducedNewType(), scope);
                 }
                 //if (tree_->completeness() == TextCompleteness::Full)
-                diagReporter_.TagTypeDoesNotMatchTagDeclaration(tySpecNode_->lastToken());
+                diagReporter_.TagTypeDoesNotMatchTagDeclaration(diagnosticToken());
             }
             else {
                 //if (tree_->completeness() == TextCompleteness::Full)
-                diagReporter_.TypeDeclarationNotFound(tySpecNode_->lastToken());
+                diagReporter_.TypeDeclarationNotFound(diagnosticToken());
             }
             return semaModel_->compilation()->canonicalErrorType();
         }
